@@ -473,6 +473,17 @@ class _SutReferenceNormalizer(cst.CSTTransformer):
     ) -> cst.BaseExpression:
         return self._replacements.pop(id(original_node), updated_node)
 
+    def visit_Arg(self, node: cst.Arg) -> bool:  # noqa: N802
+        # The ``keyword`` of a call argument (``size`` in ``f(size=x)``) is a parameter
+        # name, not a reference: only the value may refer to the module under test.
+        return False
+
+    def leave_Arg(  # noqa: N802
+        self, original_node: cst.Arg, updated_node: cst.Arg
+    ) -> cst.Arg:
+        value = original_node.value.visit(self)
+        return updated_node.with_changes(value=cst.ensure_type(value, cst.BaseExpression))
+
     def visit_Name(self, node: cst.Name) -> bool:  # noqa: N802
         replacement = self._resolve([node.value])
         if replacement is not None:
